@@ -54,7 +54,7 @@ class CondFlow:
             # const locals initialised with an expression: x == expr
             if s["k"] == "decl":
                 for v in s["vars"]:
-                    if v.get("init") is not None and (v.get("ty") or "").startswith("const ") and \
+                    if v.get("init") is not None and \
                             ("size_t" in v["ty"] or "int" in v["ty"] or "char" in v["ty"]) and "*" not in v["ty"] and "&" not in v["ty"]:
                         ref = {"k": "ref", "kind": "local", "id": v["id"], "name": v["name"]}
                         c = cmp_norm({"k": "bin", "op": "==", "l": ref, "r": v["init"]})
@@ -152,3 +152,43 @@ def implied(facts, fact):
                         if tot == want and ka + kb == c:
                             return True
     return False
+
+
+def _vec(ts):
+    return dict((t[1:], 1 if t[0] == "+" else -1) for t in ts)
+
+
+def _unvec(d):
+    pos = sorted(k for k, v in d.items() if v == 1)
+    neg = sorted(k for k, v in d.items() if v == -1)
+    if any(abs(v) > 1 for v in d.values()):
+        return None
+    return tuple(["+" + k for k in pos] + ["-" + k for k in neg])
+
+
+def closure(facts):
+    """Facts plus one round of consequences: an equality substituted into an inequality (F + E, F - E), and
+    `T + c <= 0` with `T + c != 0` strengthened to `T + c + 1 <= 0`."""
+    out = set(facts)
+    eqs = [(t, c) for (o, t, c) in facts if o == "eq"]
+    for (o, t, c) in list(facts):
+        if o not in ("le", "lt"):
+            continue
+        for (te, ce) in eqs:
+            for sgn in (1, -1):
+                d = _vec(t)
+                for k, v in _vec(te).items():
+                    d[k] = d.get(k, 0) + sgn * v
+                d = {k: v for k, v in d.items() if v}
+                ts = _unvec(d)
+                if ts is not None and len(ts) <= 3:
+                    out.add((o, ts, c + sgn * ce))
+    for (o, t, c) in list(out):
+        if o == "le" and ("ne", t, c) in facts:
+            out.add(("le", t, c + 1))
+        if o == "le":
+            # the negated form of the same disequality
+            nt = tuple(sorted((("-" if x[0] == "+" else "+") + x[1:] for x in t), key=lambda x: (x[0] != "+", x[1:])))
+            if ("ne", nt, -c) in facts:
+                out.add(("le", t, c + 1))
+    return frozenset(out)
